@@ -8,6 +8,7 @@ var _ = time.Second
 // takes the defaults in cfgFor.
 var props = map[string]propCfg{
 	"C01": {Assumptions: []string{"64-bit platform only (maxInt branches not explored)", "schema-driven consumers are driven by the aircraftlib schemas only", "a step that does not return within 120 s is treated as a hang"}, QuickTimeout: 12 * time.Minute},
+	"C02": {Race: true, Assumptions: []string{"object sizes are computed by harness/ref from the bytes", "concurrent-reader schedules are whatever the Go scheduler produces with readers released together; the race detector covers atomicity", "requires the verif build tag (VerifReadLimit observer)"}},
 	"C03": {Assumptions: []string{"harness/ref decoder/encoder implement the pointer rules of capnproto.org/encoding.html (self-tested: Encode∘Decode identity, strict validation of own output)"}},
 	"C04": {Assumptions: []string{"the reference model in harness/build mirrors only documented builder semantics (SetPtr of an unattached object moves it; list members, SetStruct and CopyFrom copy)"}},
 	"C05": {Assumptions: []string{"harness/ref strict decoder implements the producer-side rules of capnproto.org/encoding.html"}},
